@@ -35,6 +35,7 @@ def run_one(prop, mut, src_root):
         env["REDRESS_SRC"] = str(d / "src")
         env["VERIF_EVIDENCE_DIR"] = str(d / "evidence")
         env["VERIF_JOBS"] = str(mut.get("jobs", 4))
+        env["VERIF_NO_SELFMUT"] = "1"
         r = subprocess.run([str(ROOT / "check"), prop, "--tier", "quick"], capture_output=True, text=True, env=env,
                            timeout=3600)
         failed = re.findall(r"failed obligation: (.*)", r.stdout)
